@@ -7,12 +7,24 @@
     entry = db/hexkey/otype/first/splited/canRestore/dumpSize/expireAt/idle/freq/hexdump/cmds
     cmds  = . | cmd{|cmd}     cmd = hexname{.hexarg}
 
+    optional: rht=1 (replaceHashTag)  tdb=<n> (TargetDb)  dbmap=<src:dst,…> (TargetDbMap)  fdb=<db,…> (output filter: DB black
+    list)  fpre=<hexprefix,…> (output filter: key prefix black list, reserved prefixes included)  cut=<k> (restart)
+    — all of them are handed to `runWorkerF` (Model/RestoreWorker.lean), the transcription of the worker loop; the driver maps nothing
+
+    c20route tag=<i> n=<workers> [rht=1] [fdb=…] [fpre=…] ents=<entry{;entry}>
+      → "#<i> w <c…>"  per snapshot key (first bin of a keyed value, stream order): "-" if filtered, else the class of its
+        worker (`routeAll`), classes numbered by first appearance
+    c20pin <the tokens of c20>
+      → "#<i> r <outcome>", then per cell of `fin`: "#<i> p <db> <hexkey> <absent|old|by:<j>|other>" — what ONE worker of the
+        model leaves there: nothing, the target's own value, the value of snapshot key number j, something else
+    c20fnv <hexkey|->   → util.FnvHash as a decimal number (`fnv32a`)
+
     → "#<i> q <cmd> <hexargs…>"   per request (bisync marker SET canonicalised to "marker")
       "#<i> e<j> <ok|err-exists|err-module>"  after the requests of entry j (mode plain only; stops at the first error)
       "#<i> r <ok|err-exists|err-module>"     outcome of the worker
       "#<i> f <db> <hexkey> <absent|old:<exp>|new:<r|n>:<exp>>"  per key of `fin`
 -/
-import GunYu.Model.Restore
+import GunYu.Model.RestoreWorker
 namespace GunYu.Drive.C20
 open GunYu GunYu.Restore
 
@@ -95,8 +107,58 @@ def finStr : Option Obj → String
 def pol? (s : String) : Option Policy :=
   if s == "r" then some .replace else if s == "i" then some .ignore else if s == "e" then some .error else none
 
+/-- the worker configuration of an op: replaceHashTag, TargetDb / TargetDbMap (RedisOutput.selectDB), output filter -/
+def wcfg (toks : List String) : WCfg :=
+  let tdb : Option Nat := (kv toks "tdb").bind String.toNat?
+  let dbmap : List (Nat × Nat) := match kv toks "dbmap" with
+    | some m => (m.splitOn ",").filterMap (fun p => match p.splitOn ":" with
+        | [a, b] => do pure ((← a.toNat?), (← b.toNat?))
+        | _ => none)
+    | none => []
+  let fdb : List Nat := match kv toks "fdb" with
+    | some m => (m.splitOn ",").filterMap String.toNat?
+    | none => []
+  let fpre : List Bytes := match kv toks "fpre" with
+    | some m => (m.splitOn ",").filterMap Hex.decode
+    | none => []
+  { targetDb := match tdb with
+      | some t => Int.ofNat t
+      | none => -1,
+    dbMap := dbmap,
+    filterDb := fun d => fdb.contains d,
+    filterKey := fun k => fpre.any (fun p => p.isPrefixOf k),
+    rht := (kv toks "rht") == some "1" }
+
+/-- classes of worker indices, numbered by first appearance -/
+def classOf (seen : List Nat) (i : Nat) : Nat × List Nat :=
+  match seen.idxOf? i with
+  | some c => (c, seen)
+  | none => (seen.length, seen ++ [i])
+
 def handle : List String → Option (List String)
-  | "c20" :: toks =>
+  | "c20fnv" :: k :: _ =>
+    match (if k == "-" then some [] else Hex.decode k) with
+    | some bs => some [toString (fnv32a bs)]
+    | none => some ["bad-op"]
+  | "c20route" :: toks =>
+    let r : Option (List String) := do
+      let tag ← kv toks "tag"
+      let n ← (← kv toks "n").toNat?
+      let ents ← list? entry? ";" (← kv toks "ents")
+      let w := wcfg toks
+      let firsts := (routeAll w n 0 ents).filter (fun p => (p.2.otype == .data || p.2.otype == .module) && p.2.first)
+      let (out, _) := firsts.foldl (fun (acc : List String × List Nat) p =>
+        if (decide (p.2.db ≥ (0 : Int)) && w.filterDb p.2.db.toNat) || w.filterKey p.2.key then (acc.1 ++ ["-"], acc.2)
+        else
+          let (c, seen) := classOf acc.2 p.1
+          (acc.1 ++ [toString c], seen)) ([], [])
+      pure [s!"#{tag} w {" ".intercalate out}"]
+    some (r.getD ["bad-op"])
+  | "c20pin" :: toks => c20op true toks
+  | "c20" :: toks => c20op false toks
+  | _ => none
+where
+  c20op (pin : Bool) (toks : List String) : Option (List String) :=
     let r : Option (List String) := do
       let tag ← kv toks "tag"
       let mode ← kv toks "mode"
@@ -106,23 +168,7 @@ def handle : List String → Option (List String)
       let pre ← list? pre1? "," (← kv toks "pre")
       let fin ← list? fin1? "," (← kv toks "fin")
       let ents ← list? entry? ";" (← kv toks "ents")
-      let rht := (kv toks "rht") == some "1"
-      let ents := ents.map (retag rht)
-      -- TargetDb / TargetDbMap (RedisOutput.selectDB): the worker sees the entry in its target DB
-      let tdb : Option Nat := (kv toks "tdb").bind String.toNat?
-      let dbmap : List (Nat × Nat) := match kv toks "dbmap" with
-        | some m => (m.splitOn ",").filterMap (fun p => match p.splitOn ":" with
-            | [a, b] => do pure ((← a.toNat?), (← b.toNat?))
-            | _ => none)
-        | none => []
-      let mapDb (d : Int) : Int :=
-        if d < 0 then d else
-        match tdb with
-        | some t => Int.ofNat t
-        | none => match dbmap.lookup d.toNat with
-          | some t => Int.ofNat t
-          | none => d
-      let ents := ents.map (fun e => { e with db := mapDb e.db })
+      let w := wcfg toks
       let bad ← match kv toks "bad" with
         | some b => list? Hex.decode "," b
         | none => some []
@@ -130,9 +176,9 @@ def handle : List String → Option (List String)
       -- cut=<k>: a first attempt replayed the first k entries and died; the answers below are those of the RERUN —
       -- a fresh worker (no remembered state, connection in DB 0) on the target the first attempt left
       let t0 : Target := match (kv toks "cut").bind String.toNat? with
-        | some k => { workerTarget t0 (runWorker (mode == "bisync") pol cfg 0 none t0 (ents.take k)) with cur := 0 }
+        | some k => { workerTarget t0 (runWorkerF w (mode == "bisync") pol cfg 0 none t0 (ents.take k)) with cur := 0 }
         | none => t0
-      let ls := runWorker (mode == "bisync") pol cfg 0 none t0 ents
+      let ls := runWorkerF w (mode == "bisync") pol cfg 0 none t0 ents
       let tEnd := workerTarget t0 ls
       let body := (ls.zipIdx).flatMap (fun p =>
         p.1.1.map (fun q => s!"#{tag} q {render q}") ++
@@ -142,8 +188,39 @@ def handle : List String → Option (List String)
         | none => .ok
       let body := body ++ [s!"#{tag} r {outStr final}"]
       let fins := fin.map (fun p => s!"#{tag} f {p.1} {Hex.encode p.2} {finStr (tEnd.ks p.1 p.2)}")
-      pure (body ++ fins)
+      if pin then
+        -- the snapshot's keys (first bin + later bins), each replayed ALONE onto an empty target: the value it stands for
+        let groups : List (List Entry) := ents.foldl (fun acc e =>
+          if e.otype == .data || e.otype == .module then
+            if e.first then acc ++ [[e]] else
+              match acc.reverse with
+              | g :: rest => ((g ++ [e]) :: rest).reverse
+              | [] => acc
+          else acc) []
+        let tE : Target := { t0 with ks := fun _ _ => none }
+        let solo : List (Option (Nat × Bytes × Val)) := groups.map (fun g =>
+          match g with
+          | e0 :: _ =>
+            if (decide (e0.db ≥ (0 : Int)) && w.filterDb e0.db.toNat) || w.filterKey e0.key then none
+            else
+              let d := w.mapDb e0.db.toNat
+              let k := (retag w.rht e0).key
+              let te := workerTarget tE (runWorkerF w (mode == "bisync") pol cfg 0 none tE g)
+              (te.ks d k).map (fun o => (d, k, o.val))
+          | [] => none)
+        let cls (d : Nat) (k : Bytes) : String :=
+          match tEnd.ks d k with
+          | none => "absent"
+          | some o =>
+            match o.val with
+            | .old _ => "old"
+            | v =>
+              match (solo.zipIdx).find? (fun p => p.1 == some (d, k, v)) with
+              | some p => s!"by:{p.2}"
+              | none => "other"
+        pure ([s!"#{tag} r {outStr final}"] ++ fin.map (fun p => s!"#{tag} p {p.1} {Hex.encode p.2} {cls p.1 p.2}"))
+      else
+        pure (body ++ fins)
     some (r.getD ["bad-op"])
-  | _ => none
 
 end GunYu.Drive.C20
